@@ -1399,7 +1399,19 @@ pub fn c18_case(seed: u64, flavour: u64) -> HCase {
             }
             _ => ops.push(HOp::Query { kg: kg.clone(), text: rw.pick(P_QUERIES).to_string() }),
         }
-        if rw.chance(1, 3) {
+        // a catalog change is probed right away - before any later write republishes the snapshot
+        let changed_head: Option<String> = match ops.last() {
+            Some(HOp::Program { effect: Effect::RemoveClause { name, .. }, .. }) | Some(HOp::Program { effect: Effect::ClearRule { name }, .. }) | Some(HOp::Program { effect: Effect::DropRule { name }, .. }) => Some(name.clone()),
+            _ => None,
+        };
+        if let Some(h) = changed_head {
+            if rw.chance(2, 3) {
+                ops.push(HOp::Query { kg: kg.clone(), text: format!("?{h}(X, Y)") });
+                if h == "d0" && rw.chance(1, 2) {
+                    ops.push(HOp::Query { kg: kg.clone(), text: "?d1(X, Y)".into() });
+                }
+            }
+        } else if rw.chance(1, 3) {
             ops.push(HOp::Query { kg: kg.clone(), text: rw.pick(P_QUERIES).to_string() });
         }
     }
